@@ -879,7 +879,7 @@ func (b *BootGuard) KMHasBPMHash() (bool, error) {
 		}
 	case bgheader.Version20:
 		for _, hash := range b.VData.CBNTkm.Hash {
-			if hash.Usage == cbntkey.UsageBPMSigningPKD {
+			if hash.Usage.IsSet(cbntkey.UsageBPMSigningPKD) {
 				bpmHashFound = true
 			}
 		}
@@ -892,21 +892,27 @@ func (b *BootGuard) KMHasBPMHash() (bool, error) {
 
 // BPMKeyMatchKMHash verifies that BPM pubkey hash matches KM hash of Boot Policy
 func (b *BootGuard) BPMKeyMatchKMHash() (bool, error) {
+	var bpmHashCompared bool
 	switch b.Version {
 	case bgheader.Version10:
 		if b.VData.BGkm.BPKey.HashBufferTotalSize() > minHashTypeSize {
+			bpmHashCompared = true
 			if err := b.VData.BGkm.ValidateBPMKey(b.VData.BGbpm.PMSE.KeySignature); err != nil {
 				return false, fmt.Errorf("couldn't verify bpm hash in km")
 			}
 		}
 	case bgheader.Version20:
 		for _, hash := range b.VData.CBNTkm.Hash {
-			if hash.Usage == cbntkey.UsageBPMSigningPKD {
+			if hash.Usage.IsSet(cbntkey.UsageBPMSigningPKD) {
+				bpmHashCompared = true
 				if err := b.VData.CBNTkm.ValidateBPMKey(b.VData.CBNTbpm.PMSE.KeySignature); err != nil {
 					return false, fmt.Errorf("couldn't verify bpm hash in km")
 				}
 			}
 		}
+	}
+	if !bpmHashCompared {
+		return false, fmt.Errorf("couldn't find BPM hash in KM")
 	}
 	return true, nil
 }
